@@ -53,6 +53,9 @@ CLAIMED = {
     "C07": ("DESIGN.md §2 C07",
             "Bounded symbolic model checking: the real Solver hooks and the real torch.optim SGD/Adam/schedulers run on symbolic weights, parameters, adaptive weights and condition weights; after every step all learnable and optimizer-state tensors are proved (z3) equal to those of an independent reference loop on a twin; inductive-step cases start from an arbitrary optimizer state.",
             "pl.Trainer replaced by a 25-line stub of Lightning's documented automatic-optimisation order (validated bit-identically against the real Trainer outside the check); optimizer hyper-parameters concrete; FCN hidden<=2, 2-4 conditions, <=3 steps + inductive step; LBFGS-style closure optimizers outside"),
+    "C11": ("DESIGN.md §2 C11",
+            "Bounded symbolic model checking via the change-of-variables formula: the sampling maps are executed symbolically, differentiated w.r.t. the random draws through the definitions of sqrt/cos/sin/quotients, and z3 proves |det J| = measure (interiors), speed = perimeter (boundaries), the 1/2-1/2 two-point law, row-local order-preserving rejection, the union mixture threshold, acceptance proportional to fibre measure for dependent products, equal-area / lattice structure of grids, the requested normal law and the LHS one-point-per-slab property for every permutation.",
+            "probabilistic lemmas L1-L4 assumed (listed in checks/c11.py); a.e. claims (interior draws, away from kinks); 1 point per call; golden-angle equidistribution outside; LHS n<=3, grids n<=4"),
 }
 
 NOT_APPLICABLE = {
